@@ -456,3 +456,64 @@ func TestVerifC12Deaf(t *testing.T) {
 		srv.Close()
 	}
 }
+
+// TestVerifC12Batch: one data post whose elements name several sessions.  A message may only reach the backend of the
+// session its own element names, and a post with an element naming an unknown or closed session is answered 400.
+func TestVerifC12Batch(t *testing.T) {
+	out := verifOpenOut(t)
+	defer out.close()
+	be := newVerifWSBackend()
+	defer be.srv.Close()
+	shim := newVerifShim(be.host(), false)
+	open := func() (string, *verifWSConn) {
+		r, id := shim.open("ws://ignored/ws", "1")
+		if r.Status != 200 {
+			return "", nil
+		}
+		return id, <-be.newC
+	}
+	idA, a := open()
+	idB, b := open()
+	idC, c := open()
+	if a == nil || b == nil || c == nil {
+		out.emit(map[string]interface{}{"kind": "batch", "error": "open failed"})
+		return
+	}
+	shim.call("close", verifSessionBody(idC), nil, 5*time.Second)
+	mk := func(pairs ...[2]string) []byte {
+		var l []map[string]interface{}
+		for _, p := range pairs {
+			l = append(l, map[string]interface{}{"id": p[0], "msg": p[1]})
+		}
+		body, _ := json.Marshal(l)
+		return body
+	}
+	cases := []struct {
+		name string
+		body []byte
+		want int
+		forA []string // messages that may (and, for 200, must) reach A, in order
+		forB []string
+	}{
+		{"all-for-A", mk([2]string{idA, "a1"}, [2]string{idA, "a2"}), 200, []string{"a1", "a2"}, nil},
+		{"A-then-B", mk([2]string{idA, "a3"}, [2]string{idB, "b1"}), 200, []string{"a3"}, []string{"b1"}},
+		{"A-then-unknown", mk([2]string{idA, "a4"}, [2]string{"999", "u1"}), 400, []string{"a4"}, nil},
+		{"A-then-closed", mk([2]string{idA, "a5"}, [2]string{idC, "c1"}), 400, []string{"a5"}, nil},
+		{"A-then-empty-id", mk([2]string{idA, "a6"}, [2]string{"", "e1"}), 400, []string{"a6"}, nil},
+		{"B-A-B", mk([2]string{idB, "b2"}, [2]string{idA, "a7"}, [2]string{idB, "b3"}), 200, []string{"a7"}, []string{"b2", "b3"}},
+	}
+	texts := func(c *verifWSConn, from int) []string {
+		var l []string
+		for _, m := range c.received()[from:] {
+			l = append(l, string(m.Data))
+		}
+		return l
+	}
+	for _, cs := range cases {
+		na, nb := len(a.received()), len(b.received())
+		r := shim.call("data", cs.body, nil, 10*time.Second)
+		time.Sleep(150 * time.Millisecond)
+		out.emit(map[string]interface{}{"kind": "batch", "case": cs.name, "post": string(cs.body), "status": r.Status, "expected_status": cs.want,
+			"a_received": texts(a, na), "b_received": texts(b, nb), "a_allowed": cs.forA, "b_allowed": cs.forB})
+	}
+}
